@@ -787,6 +787,26 @@ func (e *Engine) specFunc(y *ECall, env *evalEnv) (Val, bool) {
 			}
 			return Val{S: app("abi_pack", tl, vl), T: bvT}, true
 		}
+	case "abidec_int", "abidec_str", "abidec_bytes", "abidec_bool":
+		// abidec_int("t1,t2,...", data, i): the i-th value decoded from data with those Solidity types (Unpack)
+		if l, ok := y.Args[0].(*ELit); ok && len(y.Args) == 3 {
+			e.declABI()
+			tys := strings.Split(l.Val, ",")
+			tl := "atnil"
+			for i := len(tys) - 1; i >= 0; i-- {
+				tl = app("atcons", e.vc.strLit(strings.TrimSpace(tys[i])), tl)
+			}
+			av := app("abi_unpack_at", tl, e.specKey(arg(1), env), arg(2).S)
+			switch y.Fn {
+			case "abidec_int":
+				return Val{S: app("unav_int", av), T: specInt}, true
+			case "abidec_str":
+				return Val{S: app("unav_str", av), T: types.Typ[types.String]}, true
+			case "abidec_bool":
+				return Val{S: app("unav_bool", av), T: specBool}, true
+			}
+			return Val{S: app("unav_bytes", av), T: bvT}, true
+		}
 	case "pad":
 		// pad(b, n): byte string b right-padded with zeros / truncated to n bytes (copy into a fresh [n]byte)
 		e.declABI()
